@@ -20,11 +20,12 @@ From Coq Require Import List NArith ZArith Bool Arith Lia.
 From Scion Require Import Lib.Check Model.Router Model.Network Model.Prov.
 From Scion Require Import Model.Segment Model.SegID Model.CombSpec Model.Combinator Model.CombProv.
 From Scion Require Import Model.Extend Model.Beaconing.
-From Scion Require Import Proofs.ProvFacts Proofs.Beaconing.
+From Scion Require Import Model.BeaconCase Proofs.ProvFacts Proofs.Beaconing Proofs.BeaconCase.
 From Scion Require Props.C02_combine.
 Import ListNotations.
 Import CombProv.
 Import Scion.Model.Beaconing.Beaconing.
+Import Scion.Model.BeaconCase.BeaconCase.
 Local Open Scope N_scope.
 
 (** every registered segment of a beaconing run is [beaconed] *)
@@ -64,6 +65,44 @@ Proof.
            (B _ _ Pu) (B _ _ Pc) (B _ _ Pd)).
 Qed.
 Print Assumptions C02_end_to_end.
+
+(** The correspondence check of the beaconing run (harness/cmd/c02, stream "segment"; Model/BeaconCase.v):
+    segments registered by the REAL DefaultExtender over generated topologies are re-run by
+    [Beaconing.run] and compared entry by entry; the oracle is the boolean [beaconed_b] on the real
+    segment, evaluated with a table of reference MACs under the routers' keys.
+
+    [beaconed_b] is [beaconed]: for a total MAC function the boolean reflects the predicate ... *)
+Theorem C02_beaconed_b_reflects :
+  forall mac t core s,
+    beaconed_b (macq_of mac) t core s = true <-> beaconed mac t core s.
+Proof.
+  intros mac t core s. split.
+  - apply beaconed_b_sound. unfold macq_of. intros k b ts e i g m H. now inversion H.
+  - apply beaconed_b_complete.
+Qed.
+Print Assumptions C02_beaconed_b_reflects.
+
+(** ... and evaluated with a partial MAC (the table of the case) it implies [beaconed] - the
+    hypothesis of C02_combine_prov / C02_paths_forward - for every MAC function the table is a part of *)
+Theorem C02_beaconed_b_table_sound :
+  forall macq mac t core s,
+    (forall k b ts e i g m, macq k b ts e i g = Some m -> mac k b ts e i g = m) ->
+    beaconed_b macq t core s = true -> beaconed mac t core s.
+Proof. intros macq mac t core s H. now apply beaconed_b_sound. Qed.
+Print Assumptions C02_beaconed_b_table_sound.
+
+(** the oracle of the segment cases holds on the model: whatever a run registers satisfies [beaconed_b] *)
+Theorem C02_seg_oracle_holds_on_model :
+  forall fullmac ctl_of t core origin ts segid cs s,
+    mac_ok fullmac -> ctl_ok ctl_of -> Nw.wf_topo t = true -> ids16 t = true ->
+    run fullmac ctl_of t core origin ts segid cs = Some s ->
+    beaconed_b (macq_of (mac6 fullmac)) t core s = true.
+Proof.
+  intros fullmac ctl_of t core origin ts segid cs s Hm Hc Hwt Hid Hr.
+  apply C02_beaconed_b_reflects. apply (C02_beaconing_beaconed fullmac ctl_of t core s Hm Hc Hwt Hid).
+  now exists origin, ts, segid, cs.
+Qed.
+Print Assumptions C02_seg_oracle_holds_on_model.
 
 (** Non-vacuity.  ISD 1: core ASes 10 and 11 joined by a core link, leaf 20 below 10, leaf 30 below
     11, and a peering link between 20 and 30.  Three beaconing runs: intra-ISD from 10 to 20 and from
@@ -136,3 +175,13 @@ Proof.
   repeat (constructor; [split; [cbn; lia|unfold path_unexpired; cbn [Cb.p_slices]; repeat constructor]|]).
   constructor.
 Qed.
+
+(** the boolean oracle on the segments of the example, and on one with a foreign SegID *)
+Example C02_beaconed_b_example :
+  beaconed_b (macq_of (mac6 bx_toy)) bx_t false (bx_seg bx_up) = true /\
+  beaconed_b (macq_of (mac6 bx_toy)) bx_t true (bx_seg bx_core) = true /\
+  beaconed_b (macq_of (mac6 bx_toy)) bx_t false (bx_seg bx_down) = true /\
+  beaconed_b (macq_of (mac6 bx_toy)) bx_t true (bx_seg bx_up) = false /\
+  beaconed_b (macq_of (mac6 bx_toy)) bx_t false
+    (Sg.mkSeg 1000 6 (Sg.sg_entries (bx_seg bx_up))) = false.
+Proof. vm_compute. repeat split. Qed.
